@@ -52,6 +52,29 @@ impl Dest for Sink {
         self.data
     }
 }
+/// A destination that accepts at most MAX bytes per `write` call (a legal `io::Write`: pipes and
+/// sockets behave like this); whoever copies into it has to loop (`write_all`, `io::copy`).
+struct Chunky<const MAX: usize> {
+    data: Vec<u8>,
+}
+impl<const MAX: usize> Write for Chunky<MAX> {
+    fn write(&mut self, buf: &[u8]) -> io::Result<usize> {
+        let n = buf.len().min(MAX);
+        self.data.extend_from_slice(&buf[..n]);
+        Ok(n)
+    }
+    fn flush(&mut self) -> io::Result<()> {
+        Ok(())
+    }
+}
+impl<const MAX: usize> Dest for Chunky<MAX> {
+    fn make(d0: &[u8]) -> Self {
+        Chunky { data: d0.to_vec() }
+    }
+    fn bytes(self) -> Vec<u8> {
+        self.data
+    }
+}
 impl Dest for File {
     fn make(d0: &[u8]) -> Self {
         let mut f = tempfile::tempfile().unwrap();
@@ -417,6 +440,8 @@ fn run(c: &S) -> S {
     match mode {
         0 => drive::<Sink>(true, &d0, &ops, &prog, &sched),
         1 => drive::<Sink>(false, &d0, &ops, &prog, &sched),
+        3 => drive::<Chunky<2>>(true, &d0, &ops, &prog, &sched),
+        4 => drive::<Chunky<5>>(false, &d0, &ops, &prog, &sched),
         _ => drive::<File>(false, &d0, &ops, &prog, &sched),
     }
 }
